@@ -570,6 +570,9 @@ def main():
         # (N, L) and (L, N): the distribution of the mean curve differs from the distribution of fn
         for fenc, aenc in (("N", "N"), ("L", "L"), ("N", "L")) + ((("L", "N"),) if not quick else ()):
             rp.replay(hvsrobj.Instance(6, fenc, aenc), state_hook=hook)
+        if na == 1:
+            # the documented alias "log-normal" is the lognormal distribution in figures and tables too
+            rp.replay(hvsrobj.Instance(6, "L", "L", alias=True), state_hook=hook, max_groups=6 if quick else None)
         rp.validate_pending()
         # read-only verdict by TLC: every recorded ReadOnly event must leave all object variables unchanged
         acc = hvsrobj.validate_traces(hook.traces, consts, f"trace-C20-{na}")
